@@ -500,7 +500,7 @@ def specMulti (P : Params) (cfg : Cfg) (fs : List Fld) (init : Val) (srcs : List
       (phs.foldl (fun A ph => stepAdm P cfg fs pt.1 ph A) [valAt init pt.1]).any (matchesAdm pt.2 (valAt v pt.1))) &&
     -- a field that no participating source binds stays as it was
     (match phs with
-     | [] => true
+     | [] => v == init      -- no source's tag occurs in the type: nothing is bound, the destination is as it was
      | ph0 :: rest => ((framesOf ph0.src.kind fs).filter fun f =>
          rest.all fun ph => (framesOf ph.src.kind fs).any (fun f' => f'.path == f.path)).all (holdsFrame init v))
 
